@@ -133,10 +133,13 @@ def check(fb, ctx):
         ok = len(ins) == 1 and len(dec) == 1 and not cond
     ctx.check(ok, "READER", "from_snapshot: every generated fact is re-inserted under its decoded origin", "READER|generated_facts", "expected an unconditional loop `for {origins, facts} in world.generated_facts { origin = decode(origins)?; for fact { world.facts.insert(&origin, fact) } }` (no origin kind skipped)", rwhere)
     # blocks: loaded with their index, third-party blocks resolved against the snapshot table, key map rebuilt
-    lc = mirq.calls_matching(fb, rb, r"authorizer::load_and_translate_block$")
+    lc = mirq.deep_calls_matching(fb, rb, r"authorizer::load_and_translate_block$")
     ctx.check(len(lc) == 1, "READER", "from_snapshot: blocks are reloaded through load_and_translate_block", "READER|blocks|loader", f"found {len(lc)} calls", rwhere)
     is_load = lambda z: z.get("k") == "call" and (z.get("f", {}).get("res", {}).get("path") or "").endswith("load_and_translate_block")
     loops = [l for l in find_all(rh["body"], lambda z: z.get("k") == "match" and z.get("src") == "ForLoopDesugar") if find_all(l["scrut"], lambda z: z.get("k") == "field" and z.get("name") == "blocks") and mcalls(l["scrut"], r"::enumerate$")]
+    # the same iteration written as `world.blocks.iter().enumerate().map(|(i, block)| { .. }).collect::<Result<..>>()`
+    loops += [m for m in find_all(rh["body"], lambda z: z.get("k") == "mcall" and z.get("name") in ("map", "for_each", "try_for_each", "filter_map", "try_fold", "fold") and any(isinstance(a, dict) and strip(a).get("k") == "closure" for a in z.get("args", [])))
+              if find_all(m["recv"], lambda z: z.get("k") == "field" and z.get("name") == "blocks") and mcalls(m["recv"], r"::enumerate$") and not find_all(m["recv"], lambda z: z.get("k") == "closure")]
     lb = [l for l in loops if find_all(l, is_load)]
     ctx.check(len(lb) == 1, "READER", "from_snapshot: one loop `for (i, block) in world.blocks.iter().enumerate()` loads the blocks", "READER|blocks|loop", f"{len(lb)} such loops", rwhere)
     if lb:
